@@ -17,7 +17,7 @@ VERIF = os.path.dirname(os.path.dirname(os.path.abspath(__file__)))
 def main():
     src = sys.argv[1]
     rows = []
-    for res in sorted(glob.glob(os.path.join(src, "C??-M?.json")) + glob.glob(os.path.join(src, "R2-C??-M?.json")) + glob.glob(os.path.join(src, "R3-C??-M?.json")) + glob.glob(os.path.join(src, "R4-?-M?.json"))):
+    for res in sorted(glob.glob(os.path.join(src, "C??-M?.json")) + glob.glob(os.path.join(src, "R2-C??-M?.json")) + glob.glob(os.path.join(src, "R3-C??-M?.json")) + glob.glob(os.path.join(src, "R4-?-M?.json")) + glob.glob(os.path.join(src, "R5-?-M?.json"))):
         name = os.path.basename(res)[:-5]
         wt, k = name.rsplit("-M", 1)
         prop = wt[-3:]
@@ -25,6 +25,10 @@ def main():
             # fourth round: one author per pair of properties, mutants 1-2 target the first, 3-4 the second
             pairs = {"A": ("C01", "C16"), "B": ("C02", "C20"), "C": ("C03", "C17"), "D": ("C04", "C11"), "E": ("C05", "C14"),
                      "F": ("C06", "C07"), "G": ("C08", "C12"), "H": ("C09", "C13"), "I": ("C10", "C19"), "J": ("C15", "C18")}
+            prop = pairs[wt[-1]][0 if int(k) <= 2 else 1]
+        if name.startswith("R5-"):
+            pairs = {"A": ("C01", "C11"), "B": ("C02", "C04"), "C": ("C03", "C09"), "D": ("C05", "C20"), "E": ("C06", "C16"),
+                     "F": ("C07", "C18"), "G": ("C08", "C13"), "H": ("C10", "C12"), "I": ("C14", "C19"), "J": ("C15", "C17")}
             prop = pairs[wt[-1]][0 if int(k) <= 2 else 1]
         d = os.path.join(src, wt, f"MUTANT{k}")
         if not os.path.isdir(d):
